@@ -303,6 +303,15 @@ static void do_switch(void *p)
         }
         case P_REVIVE_TO: {
             cult *c = &B.C[a->tgt_idx];
+            {
+                /* only a terminated ULT can be revived; the caller itself is not one (documented
+                 * error, nothing happens) */
+                ABT_thread self;
+                ABT_OK(ABT_self_get_thread(&self));
+                int rc0 = ABT_thread_revive_to(B.P, chain_body, c, &self);
+                SIM_CHECK(rc0 == ABT_ERR_INV_THREAD, "revive_to:accepted-live-unit", "ABT_thread_revive_to of the running caller returned %d, documented: ABT_ERR_INV_THREAD (%d)", rc0, ABT_ERR_INV_THREAD);
+                sim_count("c11.revive_to_of_live_unit_refused", 1);
+            }
             a->rc = ABT_thread_revive_to(B.P, chain_body, c, &c->th);
             break;
         }
